@@ -41,7 +41,9 @@ HalfUnit(p) == QDiv(QMk(1, 2), QPow(QI(10), p))
 First6(a) == IF a.fmt = "text" THEN (IF AB_LowercaseHeader THEN "#shape" ELSE "#SHAPE") ELSE "\\x93NUMPY"
 Detect(h) == CASE h = "#SHAPE" -> "text" [] h = "\\x93NUMPY" -> "npy" [] OTHER -> "none"
 
-Step(tool, fmt, prec, via) == [tool |-> tool, fmt |-> fmt, prec |-> prec, via |-> via]
+Step(tool, fmt, prec, via) == [tool |-> tool, fmt |-> fmt, prec |-> prec, via |-> via, stale |-> FALSE]
+(* a file destination may already exist and hold older, LONGER content: writing replaces it entirely *)
+StepOver(tool, fmt, prec, via, stale) == [tool |-> tool, fmt |-> fmt, prec |-> prec, via |-> via, stale |-> stale]
 
 Init ==
     \/ /\ kind = "chain"
@@ -61,20 +63,20 @@ Init ==
 Open == kind = "chain" /\ ~closed /\ Len(steps) <= MaxSteps
 
 (* view: any output format / precision / destination; values unchanged up to the text rounding *)
-View(fmt, prec, via, last) ==
-    /\ Open
+View(fmt, prec, via, last, stale) ==
+    /\ Open /\ (stale => via = "file")
     /\ art' = [fmt |-> fmt, via |-> via, prec |-> prec]
     /\ bound' = IF fmt = "text" THEN QAdd(bound, HalfUnit(prec)) ELSE bound
-    /\ steps' = Append(steps, Step("view", fmt, prec, via))
+    /\ steps' = Append(steps, StepOver("view", fmt, prec, via, stale))
     /\ closed' = last
     /\ UNCHANGED <<kind, folds>>
 
 (* fold writes text only; a folded value is a sum or average of two input values *)
-Fold(prec, via, last) ==
-    /\ Open
+Fold(prec, via, last, stale) ==
+    /\ Open /\ (stale => via = "file")
     /\ art' = [fmt |-> "text", via |-> via, prec |-> prec]
     /\ bound' = QAdd(QMul(QI(2), bound), HalfUnit(prec))
-    /\ steps' = Append(steps, Step("fold", "text", prec, via))
+    /\ steps' = Append(steps, StepOver("fold", "text", prec, via, stale))
     /\ folds' = folds + 1
     /\ closed' = last
     /\ UNCHANGED kind
@@ -85,9 +87,9 @@ Stat == /\ Open
         /\ UNCHANGED <<kind, art, bound, folds>>
 
 Next ==
-    \/ \E f \in Formats, p \in Precisions, v \in Vias, l \in BOOLEAN :
-           (f = "npy" => p = 6) /\ (l => v = "pipe") /\ View(f, p, v, l)
-    \/ \E p \in Precisions, v \in Vias, l \in BOOLEAN : (l => v = "pipe") /\ Fold(p, v, l)
+    \/ \E f \in Formats, p \in Precisions, v \in Vias, l \in BOOLEAN, st \in BOOLEAN :
+           (f = "npy" => p = 6) /\ (l => v = "pipe") /\ View(f, p, v, l, st)
+    \/ \E p \in Precisions, v \in Vias, l \in BOOLEAN, st \in BOOLEAN : (l => v = "pipe") /\ Fold(p, v, l, st)
     \/ Stat
 
 Spec == Init /\ [][Next]_vars
